@@ -54,6 +54,12 @@ func SafeMul[T Integer](x T, y T) (T, error) {
 		return 0, nil
 	}
 
+	// the smallest value of a signed type has no positive counterpart: -1 * min overflows, and the division below
+	// would wrap in exactly the same way (min / -1 == min), hiding the overflow.
+	if minusOne := ^T(0); minusOne < 0 && x == minusOne && y == -y {
+		return 0, ierrors.WithMessagef(ErrIntegerOverflow, "%d * %d", x, y)
+	}
+
 	result := x * y
 
 	if result/x != y {
@@ -177,6 +183,11 @@ func SafeMulInt64(x, y int64) (int64, error) {
 func SafeDiv[T Integer](x T, y T) (T, error) {
 	if y == 0 {
 		return 0, ierrors.WithMessagef(ErrIntegerDivisionByZero, "%d / %d", x, y)
+	}
+
+	// the smallest value of a signed type divided by -1 is not representable (it wraps to itself).
+	if minusOne := ^T(0); minusOne < 0 && y == minusOne && x != 0 && x == -x {
+		return 0, ierrors.WithMessagef(ErrIntegerOverflow, "%d / %d", x, y)
 	}
 
 	return x / y, nil
